@@ -254,7 +254,7 @@ func inCampaign(r *ev.Run, prop string) {
 		}
 		var rej []int
 		reportedIn := map[string]bool{}
-		if err := findRejected("BrokerInTrace", cfgText, idx, traces, 3, &rej); err != nil {
+		if err := findRejected("BrokerInTrace", cfgText, idx, traces, 8, &rej); err != nil {
 			r.Inconclusive("bisecting rejected traces: %v", err)
 			return
 		}
@@ -280,7 +280,6 @@ func inCampaign(r *ev.Run, prop string) {
 			case mine != "" && reportedIn[mine]:
 				// the same refusal again
 			case mine != "":
-				reportedIn[mine] = true
 				hits := 0
 				for n := 0; n < 8 && hits < 2; n++ {
 					rr := brk.RunIn(ru.sched, ru.opts)
@@ -300,6 +299,7 @@ func inCampaign(r *ev.Run, prop string) {
 					}
 				}
 				if hits >= 2 {
+					reportedIn[mine] = true // a refusal that did not come back leaves the aspect open: the next refused trace of its kind is tried too
 					r.Violation(mine, detail)
 				} else if hits == 0 {
 					transient(r, "rejected input trace (%s): %v\n trace %v at %d", mine, ru.sched, traces[k], at)
